@@ -4,10 +4,10 @@ from lib import core, propgen
 from harness.oracles import all as ALL
 
 ID = 'C16'
-UNITS = ['seg_cluster_q', 'index_labels', 'seg_entropy_skel']
-TRANSLATORS = []
-NOT_COVERED = ('scipy.stats.entropy / gammaln accuracy: the entropic scores are compared numerically by the oracle (1e-9; AMI 1e-7) with an '
-               'independent evaluation of the R-valued formulas on the exact table, not inside Coq; the frame grid off dyadic frame sizes')
+UNITS = ['seg_cluster_q', 'index_labels', 'seg_entropy_skel', 'seg_entropy_num']
+TRANSLATORS = ['scalarfuncs']
+NOT_COVERED = ('the entropic scores (MI, NMI, AMI, NCE, V) are tied numerically INSIDE Coq (unit seg_entropy_num: |R formula - float| <= 1e-9, AMI 1e-7, '
+               'by the interval tactic, kernel-checked) on sampled tables only; the frame grid off dyadic frame sizes')
 ASSUMPTIONS = ['util.intervals_to_samples yields the frames the harness constructs (checked per case); scipy sparse contingency as modelled']
 
 
@@ -52,7 +52,7 @@ def sweep(rng, n):
 oracle_search = propgen.budgeted([sweep, ALL.for_property(ID)])
 
 
-_def_at = propgen.definitional_oracle_at(['seg_cluster_q', 'index_labels', 'seg_entropy_skel'], 'equals the textbook formula on the contingency table')
+_def_at = propgen.chained(propgen.point_oracle(ID), propgen.definitional_oracle_at(['seg_cluster_q', 'index_labels', 'seg_entropy_skel'], 'equals the textbook formula on the contingency table'))
 
 
 def oracle_at(unit, case, impl):
